@@ -416,6 +416,8 @@ def applicable(xf, sw):
         return False    # re-basing an array at 1 changes LBOUND/UBOUND by design
     if 'flatten' in xf and (sw.get('call_section') or sw.get('call_full')):
         return False    # partial sections of a rank-2 array as actual arguments cannot be expressed on flat storage
+    if 'flatten' in xf and sw.get('rhs') == 'reduction' and sw.get('lhs') in ('col', 'row', 'all2', 'all2x'):
+        return False    # ... nor can the rank-2 sections of a reduction statement, which resolve_vector_notation must leave alone
     if xf == 'nasa+flatten':
         # ... nor can partial rank-2 sections in assignments: these go through resolve_vector_notation first
         lhs, rhs = sw.get('lhs'), sw.get('rhs')
